@@ -281,8 +281,8 @@ void __asan_on_error(void) {
     /* called by the ASan runtime at the start of every report */
     g_asan_reports++;
     char b[2048];
-    int  n = snprintf(b, sizeof(b), "\nA ptr=%s fn=%s case=%d inkernel=%d args=\"%s\"\n", g_k.e ? g_k.e->ptr : "?", g_cur_fn, g_k.icase,
-                     g_in_kernel, g_k.args);
+    int  n = snprintf(b, sizeof(b), "\nA ptr=%s fn=%s case=%d inkernel=%d tag=%s args=\"%s\"\n", g_k.e ? g_k.e->ptr : "?", g_cur_fn,
+                     g_k.icase, g_in_kernel, g_k.tag ? g_k.tag : "-", g_k.args);
     if (n > 0) (void)!write(1, b, (size_t)n);
 }
 
@@ -455,6 +455,23 @@ static void run_case(KdCtx *k, const KdEntry *e, int icase, uint64_t seed, uint6
             if (nonconst) st->nonconst_cmp[vi]++;
         }
         if (verbose) printf("I   %s: %s\n", v->name, bad ? "DIFFERENT" : "identical");
+        if (verbose && bad && !k->skip && k->nbuf == g_ref.nbuf) { /* replay: dump the (small) buffers, C vs variant */
+            size_t off = 0;
+            for (int i = 0; i < k->nbuf; i++) {
+                KdBuf *b = &k->buf[i];
+                if (b->size == g_ref.bsize[i] && b->size <= 20000) {
+                    int same = !memcmp(g_ref.blob + off, b->user, b->size);
+                    printf("D buffer #%d (%zu bytes) %s\nD   C  :", i, b->size, same ? "same in both" : "DIFFERS");
+                    for (size_t j = 0; j < b->size; j++) printf("%s%02x", (j & 3) ? "" : " ", g_ref.blob[off + j]);
+                    if (!same) {
+                        printf("\nD   var:");
+                        for (size_t j = 0; j < b->size; j++) printf("%s%02x", (j & 3) ? "" : " ", b->user[j]);
+                    }
+                    printf("\n");
+                }
+                off += g_ref.bsize[i];
+            }
+        }
         release_buffers(k);
     }
 }
